@@ -23,8 +23,23 @@ THEOREMS = [
     "Ural.Props.C01.canon_quoted_no_delimiter",
     "Ural.Canonicalize.canonHost_idem",
     "Ural.Canonicalize.punyLaws_id",
+    # the parser inside the model (Props/C01Whole.lean)
+    "Ural.Props.C01.urlsplit_urlunsplit",
+    "Ural.Props.C01.urlsplit_urlunsplit20",
+    "Ural.Props.C01.urlunsplit_models_agree",
+    "Ural.Props.C01.accessors_unsplitNetloc",
+    "Ural.Props.C01.canonParts_wf",
+    "Ural.Props.C01.canonParts_wf_no_bracket",
+    "Ural.Props.C01.canonicalize_reparse_partial",
+    "Ural.Props.C01.canonicalize_reparse",
+    "Ural.Props.C01.reparse_fails_outside",
+    "Ural.Props.C01.canonicalize_same_resource",
+    "Ural.Props.C01.defaultProtocolOk_https",
+    "Ural.CanonRoundTrip.punyClean_id",
+    "Ural.CanonRoundTrip.normpath_abs_shape",
 ]
-TABLE_OBLIGATIONS = ["Ural.Props.C01.tables_percent", "Ural.Props.C01.tables_delims"]
+EXTRA_IMPORTS = ["UralModel.Props.C01Whole"]
+TABLE_OBLIGATIONS = ["Ural.Props.C01.tables_percent", "Ural.Props.C01.tables_delims", "Ural.Props.C01.tables_authority"]
 RULE = (
     "A case is a URL (built from structured components over the token alphabet of the "
     "quantifier, or a raw odd string) x quoted x strip_fragment, default_protocol=https (a "
@@ -35,7 +50,18 @@ RULE = (
     "equals that of the cleaned input. quick: every atom sequence of length <= 1 in each "
     "component + the structure sweep + seeded random URLs; thorough: length <= 2 + more random. "
     "Non-trivial = output differs from input and the URL has an escape, a dot segment, "
-    "userinfo, a port or a non-ASCII character; distinct = distinct (url, options)."
+    "userinfo, a port or a non-ASCII character; distinct = distinct (url, options). "
+    "Parser/printer round trip streams (harness/urlrt.py), on every case: the model's OWN urlsplit + "
+    "SplitResult accessors (parse_url) against CPython on the raw string, on the cleaned string and on "
+    "the real output; the whole-string model canonicalizeUrl (cleaning -> parseUrl -> canonParts -> "
+    "urlunsplit, ValueError included) against the real canonicalize_url; both urlunsplit models against "
+    "the real one. Extra cases: the netloc torture generator (multiple '@', ':' in userinfo, empty / "
+    "leading-zero / too large / non-digit / unicode-digit ports, balanced / unbalanced / IPvFuture / "
+    "zone-id brackets, brackets in userinfo, control characters, tabs and newlines inside, leading "
+    "spaces, scheme look-alikes, scheme-less strings with a later ':', '//' forms, '?' / '#' orders, "
+    "backslashes, and character soup over '[]@:/?#%\\ \tv1aA.'). Strings outside the stated domain of "
+    "the parser model (non-ASCII cased character in the host, NFKC check, IPv4 tail in an IPv6 "
+    "literal) are withheld from these streams and counted (label outside-model:*)."
 )
 EXHAUSTIVE = {
     "quick": "every atom sequence of length <= 1 (66+ atoms) in each of user, password, path segment, query key, query value, fragment x 4 option settings; structure sweep (scheme x host x port, dot-segment paths x query x fragment, userinfo shapes)",
@@ -43,7 +69,9 @@ EXHAUSTIVE = {
 }
 TRUSTED = [
     "Lean 4 kernel; axioms audited",
-    "urlsplit and the SplitResult accessors are CPython: the harness parses the cleaned string with the real parser and ships the components to the model; urlunsplit is modelled by hand (compared on every run)",
+    "urlsplit and the SplitResult accessors (.username .password .hostname .port) are MODELLED (Py/UrlSplit.lean, Py/UrlAccessors.lean) and compared with CPython on every run on the raw, cleaned and printed strings of every case and on the netloc torture strings; the old ops still ship the real parser's components to canonParts, the new op canonicalize_whole lets the model parse by itself, so both ties run; urlunsplit is modelled twice (UrlParts.urlunsplit, Py.urlunsplit20), proved equal (urlunsplit_models_agree) and both compared with the real one",
+    "outside the parser model (withheld from the parse streams, counted): str.lower on non-ASCII cased characters of the host, _checknetloc (NFKC), IPv4 tail inside an IPv6 literal; _check_bracketed_host is otherwise the approximation bracketedHostOk",
+    "PunyClean (the idna decoder brings in no URL delimiter, '%', control or white-space character that its input did not hold) is assumed by the round-trip theorems and tested on the real codec for every label decoded in a run, next to PunyLaws",
     "attempt_to_decode_idna (CPython idna codec) is the abstract parameter `puny`; the driver uses a per-case table computed by the real codec",
     "hand-written model Model/Canonicalize.lean + Model/UrlParts.lean + Model/Quote.lean, tied to the code by differential execution",
     "str.lower / str.strip on non-ASCII characters outside the model alphabet (DESIGN §4) are not modelled",
@@ -53,8 +81,12 @@ UNPROVED = (
     "path clause: proved that unescaping/quoting never change the segment view (path_unquote_view, "
     "path_quote_view, canon_path_escaping); that normpath + the trailing-slash / empty-path rules compute "
     "that view on the unescaped path (plain-string dot-segment resolution) is not yet a theorem: it is "
-    "checked by the oracle on every case and by the model-vs-implementation comparison; re-parsing of "
-    "the printed URL is CPython's urlsplit (oracle re-parses the real output)"
+    "checked by the oracle on every case and by the model-vs-implementation comparison. Delimiter clause "
+    "on the output string: canonicalize_reparse is full for netlocs without brackets; with brackets it is "
+    "canonicalize_reparse_partial (hypotheses: no bracket in userinfo / inside the host text, and the "
+    "canonical host, when it holds ':', still passes the bracket check) - outside them the statement is "
+    "false for the implementation (reparse_fails_outside, KF-C01-1, KF-C01-2). The default protocol must be "
+    "scheme-shaped (DefaultProtocolOk), otherwise the cleaned string has no scheme."
 )
 OPTS = [(False, False), (True, False), (False, True), (True, True)]
 DPS = ["https", "https", "http", "ftp", "https://", "wss:"]
@@ -162,6 +194,20 @@ def kf_userinfo_brackets(case, failure):
     return "[" in ui or "]" in ui
 
 
+def kf_bracket_in_host_text(case, failure):
+    """KF-C01-2: a bracketed host whose text holds '[' and no ':' (IPvFuture 'v1.[', the
+    parser accepts anything after the dot): unsplit_netloc only puts brackets back around a
+    host holding ':', so the printed netloc has one unmatched bracket."""
+    from urllib.parse import urlsplit
+
+    try:
+        r = urlsplit(cc.clean_impl(_url(case), case["dp"]))
+    except Exception:  # noqa
+        return False
+    h = r.hostname or ""
+    return "[" in h and ":" not in h and "no longer parses" in failure
+
+
 def nontrivial(case):
     url = _url(case)
     if any(c in url for c in "%@") or not url.isascii() or "/." in url or case["parts"].get("port"):
@@ -182,6 +228,9 @@ def classify(case):
         labs.append("dot-segment")
     if "raw" in case["parts"]:
         labs.append("raw-string")
+    w = urlrt.outside_model(url)
+    if w:
+        labs.append("outside-model:" + w)
     elif cc.parse(lib.guarded(cc.clean_impl, url, case["dp"]) if True else "") is None:
         labs.append("unparseable")
     return labs
